@@ -7,6 +7,7 @@
 import Djc.Proofs.Render
 import Djc.Proofs.Plain
 import Djc.Proofs.Calm
+import Djc.Proofs.Leaf
 namespace Djc.Props.C06
 open Djc.Tpl Djc.Render Djc.Proofs.Render
 
@@ -113,6 +114,34 @@ fragment -/
 example : Djc.Proofs.Calm.Fresh {} := fun _ _ => ⟨rfl, rfl⟩
 example : Djc.Proofs.Calm.calmL [.forn "x".toList (.var ["xs".toList])
     [.provide "k".toList [] [.provide "k".toList [] [.out (.var ["x".toList])]]]] = true := by decide
+
+/-- **A finished component render leaves nothing behind — across the whole deferred pipeline.**  A component tag with
+an empty body where no component encloses it, template in the plain fragment, data from the call: `ComponentNode.render`,
+`_render_impl` (id, `component_context_cache` entry, `get_context_data`, snapshot, `component_renderer_cache` entry),
+`component_post_render` (the renderer runs, attributes and placeholders are processed, `on_component_rendered`
+deletes the context entry and unregisters the provide reference).  For every world without live providers whose next id
+is unused: afterwards `component_context_cache`, `component_renderer_cache`, `child_component_attrs`, the provide
+registries, the captured fills and the caller's render-context depth are exactly what they were.  (The failing paths are
+the listed finding `error-leaves-registry-entries`.) -/
+theorem C06_full_partial_leaf_component_leaves_nothing (env : Env) (i : Nat) (name : Str) (kwargs : List (Str × Expr))
+    (only dyn : Bool) (ctx ctx' : Ctx) (w : World) (d : CompDef) (toks : List Tok) (st : Nat)
+    (hctx' : ctx' = if only || env.isolated then isolatedCopy ctx else ctx)
+    (hr : env.raiseAt = none) (hd : findDef env name = some d) (hdyn : isDynName name = false)
+    (hp : Djc.Proofs.Plain.plainL d.template = true) (hsrc : d.data.all (fun kv => Djc.Proofs.Leaf.pureSrc kv.2) = true)
+    (hsteps : ¬ w.steps ≥ env.maxSteps) (hgcd : w.gcds < env.maxInst) (hext : isExtracting ctx = false)
+    (hpar : ∀ p, ctxGet ctx' compKey ≠ some (.compRef p)) (hprov : w.provideCache = [])
+    (hf1 : alGet w.nextId w.ctxCache = none) (hf2 : alGet w.nextId w.rendererCache = none)
+    (hf3 : alGet w.nextId w.childAttrs = none) (hf4 : w.allRefIds.contains w.nextId = false)
+    (hc : Djc.Proofs.Plain.ctxFree (Djc.Proofs.Leaf.leafCtx ctx' w.nextId (evalKwargs ctx kwargs) d) = true)
+    (hok : Djc.Proofs.Plain.pNodes env.maxSteps (i + 1) d.template
+      (Djc.Proofs.Leaf.leafCtx ctx' w.nextId (evalKwargs ctx kwargs) d) (w.steps + 1) = (.ok toks, st)) :
+    let w' := ((renderNode env (i + 6) (.comp name kwargs only dyn []) ctx).run.run w).2
+    w'.ctxCache = w.ctxCache ∧ w'.rendererCache = w.rendererCache ∧ w'.childAttrs = w.childAttrs ∧
+      w'.provideCache = w.provideCache ∧ w'.provideRefs = w.provideRefs ∧ w'.allRefIds = w.allRefIds ∧
+      w'.cap = w.cap ∧ w'.rcLeak = w.rcLeak := by
+  rw [Djc.Proofs.Leaf.leaf_component env i name kwargs only dyn ctx ctx' w d toks st hctx' hr hd hdyn hp hsrc hsteps hgcd hext
+    hpar hprov hf1 hf2 hf3 hf4 hc hok]
+  exact ⟨rfl, rfl, rfl, rfl, rfl, rfl, rfl, rfl⟩
 
 /-- The property at full strength for the model of the code: whatever callback raises, every
 registry of the world is as before the render.  OPEN; false on the unchanged tree. -/
